@@ -96,6 +96,88 @@ def D1_fd_pty(w0, r0, gone, t1, w1, size, tr, tmo, hold=0):
     return 3 if len(dec.calls) > 1 else 2
 
 
+class _SendPty(FakePty):
+    """FakePty that also accepts the control-character calls (each writes one byte and reports it)"""
+    sent = None
+
+    def sendcontrol(self, char):
+        self.sent = (self.sent or []) + [b'\x07']
+        return 1, b'\x07'
+
+    def sendeof(self):
+        self.sent = (self.sent or []) + [b'\x04']
+        return 1, b'\x04'
+
+    def sendintr(self):
+        self.sent = (self.sent or []) + [b'\x03']
+        return 1, b'\x03'
+
+
+@obligation(params=dict(w0=Int(0, 2), r0=Int(0, 1), w1=Int(0, 3), size=Int(1, 2), op=Int(0, 4), hold=Int(0, 1), ls=Bool(),
+                        lf=Bool()),
+            tags={2: 'send', 3: 'sendline', 4: 'sendcontrol', 5: 'sendeof', 6: 'sendintr'}, timeout=600, split=('op', 'ls'),
+            thorough=dict(params=dict(w0=Int(0, 3), r0=Int(0, 2), w1=Int(0, 4), size=Int(1, 3), hold=Int(0, 2), poll=Bool()),
+                          timeout=2000, split=('op', 'ls', 'lf')),
+            note='D4: a send-family call between two reads of a pty in unicode mode, while the decoder may be holding '
+                 'an unfinished character, with send logs on or off: the one incremental decoder sees the received '
+                 'bytes only - once, in order (added after a seeded change that pushed sent control bytes through '
+                 'the read-side decoder was missed)')
+def D4_send_between_reads(w0, r0, w1, size, op, hold, ls, lf, poll=False):
+    if not (r0 <= w0 <= w1):
+        return SKIP
+    op = pick(op, 0, 4)
+    w = PeerWorld(w0, r0, False, [(1, 'w', w1)], pty=True)
+    ev, sev = Events(), Events()
+    dec = FakeDecoder(holds=[pick(hold, 0, 2), 0, 0, 0])
+    sp = PS.spawn(None, encoding='utf-8')
+    sp.timeout = 1
+    sp.delaybeforesend = None
+    pty_ = _SendPty(w)
+    sp.ptyproc, sp.child_fd, sp.closed, sp.use_poll = pty_, 7, False, poll
+    sp._decoder = dec
+    sp.logfile_read = RecFile('r', ev)
+    if ls:
+        sp.logfile_send = RecFile('s', sev)
+    if lf:
+        sp.logfile = RecFile('all', sev)
+    sel = lambda r, wl, x, t=None: ([7] if w.select(t) else [], [], [])
+    pol = lambda fds, t=None: ([7] if w.select(t) else [])
+    written = []
+
+    class _OS(FakeOS):
+        def write(self, fd, b):
+            written.append(b)
+            return len(b)
+    got = ''
+    os_ = _OS(w)
+    with patched(SB, os=os_), patched(PS, os=os_, select_ignore_interrupts=sel, poll_ignore_interrupts=pol):
+        for step in range(3):
+            if step == 1:
+                if op == 0:
+                    sp.send('q')
+                elif op == 1:
+                    sp.sendline('q')
+                elif op == 2:
+                    sp.sendcontrol('g')
+                elif op == 3:
+                    sp.sendeof()
+                else:
+                    sp.sendintr()
+                continue
+            try:
+                got = got + sp.read_nonblocking(size, 0)
+            except (EOF, TIMEOUT):
+                pass
+            except Skip:
+                return SKIP
+    read_events = [e for e in ev.ev if e[0] == 'r']
+    if lf:
+        read_events = read_events      # the common log also gets the reads; they are checked through the read log
+    if not _check(dec, STREAM[r0:w.rd], got, read_events):
+        return 0
+    return 2 + op
+
+
 class _Q:
     def __init__(self, items):
         self.items = list(items)
@@ -406,6 +488,8 @@ def dry_runs():
     yield 'D1_async', dict(n=2, done=False)
     for tr in range(3):
         yield 'D1_fd_pty', dict(w0=3, r0=0, gone=False, t1=0, w1=3, size=2, tr=tr, tmo=0)
+    for op in range(5):
+        yield 'D4_send_between_reads', dict(w0=2, r0=0, w1=3, size=2, op=op, hold=1, ls=True, lf=True)
     for cls in range(5):
         yield 'D2_wiring', dict(enc=1, err=1, cls=cls)
         yield 'D2_wiring', dict(enc=0, err=0, cls=cls)
